@@ -16,6 +16,7 @@ int oid(const void* p) { for (int i = 0; i < nobj; i++) if (objs[i] == p) return
 int aid(const void* p) { if (!p) return 0; for (int i = 0; i < naddr; i++) if (addrs[i] == p) return i + 1; if (naddr < 599) { addrs[naddr++] = p; return naddr; } return -1; }
 struct { int o, sp, dp, eact, dact; bool open; } cur;
 long nrhs = 0; int sysid = 0; bool first_at_sys = true;
+int pending_ini_o = 0, pending_ini_sys = 0;
 void finish(int code) { if (out) { fprintf(out, "{\"e\":\"End\"}\n"); fclose(out); out = nullptr; } _exit(code); }
 void flush_rhs() {
   if (!cur.open || !out) return;
@@ -30,7 +31,8 @@ void sink(const char* tag, const void* p0, const void* p1, long a, long b) {
   else if (!strcmp(tag, "sq.bind.e")) cur.eact = aid(p1);
   else if (!strcmp(tag, "sq.bind.d")) cur.dact = aid(p1);
   else if (!strcmp(tag, "sq.bind.dp")) cur.dp = aid(p1);
-  else if (!strcmp(tag, "sq.ini")) { fprintf(out, "{\"e\":\"Ini\",\"o\":%d,\"sys\":%d}\n", o, aid(p1)); nev++; }
+  else if (!strcmp(tag, "sq.ini")) { pending_ini_o = o; pending_ini_sys = aid(p1); }
+  else if (!strcmp(tag, "sq.ini.cache")) { fprintf(out, "{\"e\":\"Ini\",\"o\":%d,\"sys\":%d,\"cacheclear\":%s}\n", pending_ini_o, pending_ini_sys, (p1 == nullptr && a == 0) ? "true" : "false"); nev++; }
   else if (!strcmp(tag, "sq.evolve.start")) { nrhs = 0; first_at_sys = true; sysid = aid(p1);
     fprintf(out, "{\"e\":\"EvolveStart\",\"o\":%d,\"sys\":%d,\"num\":%ld,\"paramsok\":%s}\n", o, sysid, a, b ? "true" : "false"); nev++; }
   else if (!strcmp(tag, "sq.evolve.driverfreed")) flush_rhs();
